@@ -346,6 +346,96 @@ class Gen(object):
         self.emit(ind + '    ', '%s = %s' % (x, r.choice(['(%s * 10)' % x, '(%s + 7)' % x, '(%s - a)' % x])))
         return '(%s(%s) + %d)' % (g, self.iexpr(da - {x}, 1) if (da - {x}) else 'a', r.randrange(0, 3))
 
+    def deep_closure_tail(self, ind, da, x):
+        """Tail of a program: a closure chain nested 2-3 levels deep whose INNERMOST function reads `x` (def in def (in def);
+        lambda in def, immediately called or stored inside the def) — or whose middle function rebinds `x` through
+        `nonlocal`, or a lambda stored at f's level / in a default (the last three are classes of known findings) —; then
+        control flow (if / nested if / while / for) that reads and reassigns `x`; then `x` is read ONLY through the chain, in
+        the return expression: called directly, through an alias, or transitively through a sibling function.  The chain is
+        the only thing that keeps `x` alive after the conditional."""
+        r = self.rng
+        self.nfn += 1
+        g = 'g%d' % self.nfn
+        self.features.add('deep_closure')
+        others = sorted(v for v in da if v in self.ivars and v != x) or ['a']
+        k = r.choice(others + ['2', '3'])
+        c = r.random()
+        if c < 0.34:
+            shape = 'def2'
+        elif c < 0.52:
+            shape = 'def3'
+        elif c < 0.64:
+            shape = 'lambda_in_def'
+        elif c < 0.74:
+            shape = 'lambda_stored_in_def'
+        elif c < 0.86:
+            shape = 'middle_nonlocal'
+        elif c < 0.93:
+            shape = 'lambda_default'
+        else:
+            shape = 'lambda_stored'
+        self.features.add('deep_closure:' + shape)
+        body = r.choice(['(%s * p)' % x, '(%s + p)' % x, '(p - %s)' % x])
+        if shape == 'def2':
+            lines = ['def %s(p):' % g, '    def %si():' % g, '        return %s' % body, '    return (%si() + %s)' % (g, k)]
+        elif shape == 'def3':
+            lines = ['def %s(p):' % g, '    def %si(q):' % g, '        def %sj():' % g, '            return (%s + q)' % body,
+                     '        return %sj()' % g, '    return %si(%s)' % (g, k)]
+        elif shape == 'lambda_in_def':
+            lines = ['def %s(p):' % g, '    return (lambda q: (%s + q))(%s)' % (body, k)]
+        elif shape == 'lambda_stored_in_def':
+            lines = ['def %s(p):' % g, '    %sh = (lambda q: (%s + q))' % (g, body), '    return %sh(%s)' % (g, k)]
+        elif shape == 'middle_nonlocal':
+            lines = ['def %s(p):' % g, '    def %si(q):' % g, '        nonlocal %s' % x, '        %s = (%s + q)' % (x, x),
+                     '        def %sj():' % g, '            return (%s * 2)' % x, '        return %sj()' % g, '    return %si(p)' % g]
+        elif shape == 'lambda_default':
+            lines = ['def %s(p, h=(lambda: %s)):' % (g, x), '    return (h() + p)']
+        else:
+            lines = ['%s = (lambda p: %s)' % (g, body)]
+        for l in lines:
+            self.emit(ind, l)
+        callee = g
+        form = r.randrange(3)
+        if form == 1:
+            self.features.add('deep_closure:alias')
+            self.emit(ind, '%sa = %s' % (g, g))
+            callee = g + 'a'
+        elif form == 2:
+            self.features.add('deep_closure:transitive')
+            self.emit(ind, 'def %st(p):' % g)
+            self.emit(ind + '    ', 'return (%s(p) + 1)' % g)
+            callee = g + 't'
+        # control flow that reads and reassigns x; nothing else reads x afterwards
+        rmw = lambda: r.choice(['(%s * 10)' % x, '(%s + 7)' % x, '(%s - a)' % x, '(%s + %s)' % (x, r.choice(others))])
+        cf = r.randrange(5)
+        nox = da - {x}
+        if cf == 0:
+            self.emit(ind, 'if %s:' % self.bexpr(nox, 1))
+            self.emit(ind + '    ', '%s = %s' % (x, rmw()))
+        elif cf == 1:
+            self.emit(ind, 'if %s:' % self.bexpr(nox, 1))
+            self.emit(ind + '    ', 'if %s:' % self.bexpr(nox, 1))
+            self.emit(ind + '        ', '%s = %s' % (x, rmw()))
+            self.emit(ind + '    ', 'else:')
+            self.emit(ind + '        ', '%s = %s' % (x, rmw()))
+        elif cf == 2:
+            self.emit(ind, 'if %s:' % self.bexpr(nox, 1))
+            self.emit(ind + '    ', '%s = %s' % (x, rmw()))
+            self.emit(ind, 'elif %s:' % self.bexpr(nox, 1))
+            self.emit(ind + '    ', '%s += %d' % (x, r.randrange(1, 4)))
+        elif cf == 3:
+            self.nw += 1
+            n = 'n%d' % (self.nw + 20)
+            self.emit(ind, '%s = 0' % n)
+            self.emit(ind, 'while %s < %d:' % (n, r.randrange(1, 3)))
+            self.emit(ind + '    ', '%s += 1' % n)
+            self.emit(ind + '    ', 'if %s:' % self.bexpr(nox, 1))
+            self.emit(ind + '        ', '%s = %s' % (x, rmw()))
+        else:
+            self.emit(ind, 'for %s in %s:' % (r.choice(['i', 'j', 'k']), r.choice(['l', 'range(2)'])))
+            self.emit(ind + '    ', '%s = %s' % (x, rmw()))
+        return '(%s(%s) + %d)' % (callee, self.iexpr(nox, 1) if nox else 'a', r.randrange(0, 3))
+
     def nonlocal_closure(self, ind, da):
         """At the top level of f only: a closure that WRITES a variable of f through `nonlocal`, with its own control
         flow, called at the top level.  The closure is never called from inside f's control flow (writes through called
@@ -417,6 +507,8 @@ def make_program(rng, size=10, rich=False, midreturn=False):
     ints = sorted(v for v in da if v in g.ivars)
     if rich and ints and rng.random() < 0.35:
         ret = g.closure_after_join(ind, da, rng.choice(ints))
+    elif rich and ints and rng.random() < 0.4:
+        ret = g.deep_closure_tail(ind, da, rng.choice(ints))
     elif rich and rng.random() < 0.5:
         parts = rng.sample(ints, min(len(ints), 2)) if ints else ['a']
         if g.uses_obj:
@@ -544,6 +636,25 @@ KNOWN_CLASS_PROGRAMS = {
         return p
     z = h(a)
     return m
+''',
+    'nonlocal_in_closure_nested_two_levels': '''def f(a, b, c, l):
+    x = a
+    def g(p):
+        def gi():
+            nonlocal x
+            x = x + p
+            return x
+        return gi()
+    if c:
+        x = x + 10
+    return g(1)
+''',
+    'stored_lambda_reads_reassigned_variable': '''def f(a, b, c, l):
+    x = a
+    g = lambda q: x + q
+    if c:
+        x = x + 10
+    return g(1)
 ''',
 }
 
